@@ -88,6 +88,12 @@ def cli_case(case):
         files, origin = e2e.seed_project(rng, seeds, [cid] + rng.sample(REAL_CODEMODS, 2), rng.randint(2, 5), case["manifest"])
         if case["manifest"] == "setup.py" and case.get("trigger_in_manifest"):
             files["setup.py"] = files["setup.py"] + "\n" + rng.choice(seeds[cid])
+        if case.get("legacy"):
+            # a requirements file in a legacy encoding (the reader accepts what chardet recognises), the foreign bytes far from the end
+            head = {"cp1251": "# зависимости проекта, не редактировать вручную; список пакетов для сборки и развёртывания\n".encode("cp1251"),
+                    "utf-16": None, "latin-1": "# dépendances gérées à la main, à ne pas modifier sans prévenir l'équipe déjà citée\n".encode("latin-1")}[case["legacy"]]
+            body = "requests==2.31.0\nflask>=2\nclick\njinja2\nwerkzeug\nitsdangerous\n"
+            files["requirements.txt"] = (head + body.encode()) if head is not None else ("# deps\n" + body).encode("utf-16")
         a, b = root / "a", root / "b"
         e2e.write_project(a, files); e2e.write_project(b, files)
         snap = e2e.snapshot(a)
@@ -113,6 +119,9 @@ def search(ctx):
         for m in ["requirements.txt", "setup.cfg"] if not ctx.thorough else ["requirements.txt", "pyproject.toml", "setup.py", "setup.cfg"]:
             cases.append({"codemod": cid, "manifest": m, "seed": rng.randint(0, 10**9)})
     cases.append({"codemod": "pixee:python/use-defusedxml", "manifest": "setup.py", "trigger_in_manifest": True, "seed": rng.randint(0, 10**9)})
+    for enc in ["cp1251", "utf-16", "latin-1"]:
+        cases.append({"codemod": rng.choice(["pixee:python/use-defusedxml", "pixee:python/flask-enable-csrf-protection"]), "manifest": "requirements.txt",
+                      "legacy": enc, "seed": rng.randint(0, 10**9)})
     for c, r in zip(cases, impl.pool_map(cli_case, cases)):
         if r[0] != "ok":
             ctx.broke("c04 cli harness", r[1]); continue
@@ -124,5 +133,5 @@ def search(ctx):
         elif not r["tree_same"]:
             ctx.fail({"kind": "dry-run-writes", "where": "cli", "manifest": c["manifest"]}, f"--dry-run changed the tree ({c['codemod']}, manifest {c['manifest']})", {"case": c, "files": r["files"]})
         elif not r["report_same"]:
-            ctx.fail({"kind": "dry-report-differs", "codemod": c["codemod"], "manifest": c["manifest"], "trigger_in_manifest": bool(c.get("trigger_in_manifest"))},
+            ctx.fail({"kind": "dry-report-differs", "codemod": c["codemod"], "manifest": c["manifest"], "trigger_in_manifest": bool(c.get("trigger_in_manifest")), "legacy": c.get("legacy") or ""},
                      f"report of --dry-run differs from the real run ({c['codemod']}, manifest {c['manifest']})", {"case": c, "dry": r["dry_results"], "real": r["real_results"]})
